@@ -121,6 +121,19 @@ def inventory(mir, reach):
                     defs = [st for st in b["stmts"] if st["val"]["rv"] == "binop:AddWithOverflow" and st["dst"]["l"] == t["cond"].get("l")]
                     if len(defs) == 1:
                         site["mech"], site["mech_text"] = add_discharge(defs[0]["val"]["ops"])
+                elif t["msg"] == "overflow:Mul":
+                    # `k * xs.len()` with a literal k <= 16: a length (bounded by the memory the process has) scaled once by a small
+                    # constant -- the same magnitude argument as for additions; a product that feeds itself (x = x * k) has no
+                    # `len()` call as its operand and keeps its row
+                    defs = [st for st in b["stmts"] if st["val"]["rv"] == "binop:MulWithOverflow" and st["dst"]["l"] == t["cond"].get("l")]
+                    if len(defs) == 1:
+                        ops = defs[0]["val"]["ops"]
+                        consts = [o for o in ops if o.get("k") == "const"]
+                        others = [o for o in ops if o.get("k") == "place"]
+                        if len(ops) == 2 and len(consts) == 1 and len(others) == 1 and all(_strip_ref(o.get("ty")) == "usize" for o in ops) \
+                                and (consts[0].get("val") or "").isdigit() and int(consts[0]["val"]) <= 16 \
+                                and re.search(r"^call:.*::len$", producer_of(fn, i, others[0]["l"])):
+                            site["mech"], site["mech_text"] = True, f"{consts[0]['val']} * len()"
                 out.append(site)
             elif t["k"] == "call":
                 name = mir.callee_of(fn, t)
